@@ -51,7 +51,7 @@ Proof. vm_compute. repeat split; reflexivity. Qed.
 
 (* a deferred callback of g1 returns ErrSkip: an error for a callback *)
 Lemma witness_deferred_error :
-  let '(s', tr, out) := wf_run (mk_step (bs "var A2 = 1") RNil false false [([], RSkip)]) (ok_step "var B0 = 1") in
+  let '(s', tr, out) := wf_run (mk_step (bs "var A2 = 1") RNil false false [SD [] RSkip []]) (ok_step "var B0 = 1") in
   out = Failed (EDefer (bs "g1") (bs "m/a")) /\ unchanged s' [a_g1; a_g2; b_g1; the_sum] = true.
 Proof. vm_compute. repeat split; reflexivity. Qed.
 
